@@ -698,7 +698,7 @@ class Connection(object):
         return tuple(dir(obj))
 
     def _handle_inspect(self, id_pack):  # request handler
-        if hasattr(self._local_objects[id_pack], '____conn__'):
+        if isinstance(self._local_objects[id_pack], netref.BaseNetref):
             # When RPyC is chained (RPyC over RPyC), id_pack is cached in local objects as a netref
             # since __mro__ is not a safe attribute the request is forwarded using the proxy connection
             # see issue #346 or tests.test_rpyc_over_rpyc.Test_rpyc_over_rpyc
@@ -735,7 +735,7 @@ class Connection(object):
         #  + refactor cache instancecheck/inspect/class_factory
         #  + improve cache docs
 
-        if hasattr(obj, '____conn__'):  # keep unwrapping!
+        if isinstance(obj, netref.BaseNetref):  # keep unwrapping!
             # When RPyC is chained (RPyC over RPyC), id_pack is cached in local objects as a netref
             # since __mro__ is not a safe attribute the request is forwarded using the proxy connection
             # relates to issue #346 or tests.test_netref_hierachy.Test_Netref_Hierarchy.test_StandardError
